@@ -78,6 +78,14 @@ CLAIMED["C19"] = dict(
     technique="Coq proof about a reference semantics + differential check of the binary against the extracted interpreter (outcome-set membership)",
 )
 
+CLAIMED["C03"] = dict(
+    category="proof",
+    text="Theorems in coq/Props/Properties_C03.v: the product of jose_jws_sig (model in Jose/Jws.v, Jose/SigAlgs.v) is the RFC 7515 construction -- algorithm chosen and recorded as in C15, protected header encoded once and used verbatim, signing input protected || '.' || payload, signature member = base64url of the signature octets (which decodes back), merged by add_entity (C16); the verifier (C01) evaluates the primitive on the same bytes; the HMAC family satisfies verify(sign(m)); RFC 7515 A.1 is reproduced bit for bit inside the kernel (vm_compute). Tie, both directions: jose's HMAC products compared bit for bit with the extracted model and with python hmac over key sizes 0..1025, every algorithm source, template form, start form, key sets; jose's RSA/PSS/ECDSA products verified by the independent BigZ implementation (for RSASSA-PKCS1-v1_5 this is bit-identity: s^e mod n = EM); tokens produced by the model (HMAC; ECDSA with supplied nonce) and all RFC 7515 / RFC 7520 section 4 examples verify in jose.",
+    design_ref="DESIGN.md section 3 C03/C04",
+    note="Coq kernel; no axioms in the theorems (Int63 primitives only inside the BigZ evaluation); primitive laws for RSA/ECDSA and JSON parse(dump)=id are assumed/validated, not proved; Gallina primitives validated on standard vectors.",
+    technique="Coq proof (unfolding of the signing pipeline, base64 round trip) + bit-exact correspondence and cross-verification with independent Gallina primitives (extracted and vm_compute/BigZ)",
+)
+
 NOT_YET = {}
 
 def main():
